@@ -35,6 +35,8 @@ MUTANTS = [
     ("C02", "processor/variable_processor.py", "NodeValue(str(total), val_)", "NodeValue(str(total + 1), val_)"),
     ("C02", "processor/variable_processor.py", '    prefix = "_" + name\n', '    prefix = "__" + name\n'),
     ("C02", "processor/variable_processor.py", "        return val[len(prefix):]\n", "        return val[len(name):]\n"),
+    ("C07", "processor/variable_set_processor.py", "        if check_id is not None:\n            # this means the watch result is already in the var_lookup\n            return VariableId(check_id, name), self.__to_string(value)\n", ""),
+    ("C07", "processor/variable_set_processor.py", "        var_id = self.__var_cache.check_id(identity_hash_id)\n\n        return VariableId(var_id, name)", "        var_id = check_id\n\n        return VariableId(var_id, name)"),
     ("C07", "processor/variable_processor.py", "node.original_name), process_children=False)", "node.original_name), process_children=True)"),
     ("C07", "processor/variable_processor.py", "    identity_hash_id = str(id(node.value))\n", "    identity_hash_id = str(id(node))\n"),
     ("C07", "processor/variable_processor.py", "    var_collector.append_variable(var_id, variable)\n", ""),
